@@ -190,6 +190,8 @@ impl LogState {
         // Raw bytes: a script may write anything to stderr, and a multi-byte
         // character may reach the log in two pieces.
         let mut line_head: Vec<u8> = Vec::new();
+        // The record part of a physical line that began with plain text.
+        let mut pending: Option<Vec<u8>> = None;
         let mut width = tty_width();
         loop {
             if f.is_none() {
@@ -204,7 +206,9 @@ impl LogState {
                     Err(e) => return Err(e.into()),
                 }
             }
-            let mut line = if let Some(f) = f.as_mut() {
+            let mut line = if let Some(p) = pending.take() {
+                p
+            } else if let Some(f) = f.as_mut() {
                 // Note: normally includes trailing \n.
                 // In 'follow' mode, might get a line with no trailing \n
                 // (eg. when ./configure is halfway through a test), which we
@@ -273,6 +277,15 @@ impl LogState {
                 line_head.extend_from_slice(&line);
                 line = Vec::new();
                 mem::swap(&mut line, &mut line_head);
+            }
+            // A record written while the script's own output stood in mid-line
+            // (printf 'checking y... '; redo-ifchange y) comes after that text
+            // on the same physical line.  Show the text as a line of its own
+            // and take the record for what it is; otherwise the nested target
+            // is never followed and its output never shown.
+            if let Some(start) = record_start(&line) {
+                pending = Some(line.split_off(start));
+                line.push(b'\n');
             }
             // Only a complete line is decoded; bytes that are not UTF-8 are
             // shown as U+FFFD instead of ending the viewer.
@@ -430,6 +443,18 @@ fn tty_width() -> usize {
                 .and_then(|s| str::parse::<usize>(&s).ok())
         })
         .unwrap_or(70)
+}
+
+/// Position of a log record that stands after plain text on the same line, if
+/// any.  Like the pretty printer, only the first record prefix is looked at.
+fn record_start(line: &[u8]) -> Option<usize> {
+    const PREFIX: &[u8] = b"@@REDO:";
+    let start = line.windows(PREFIX.len()).position(|w| w == PREFIX)?;
+    if start == 0 {
+        return None;
+    }
+    let rest = String::from_utf8_lossy(&line[start..]);
+    Meta::parse(rest.trim_end_matches('\n')).ok().map(|_| start)
 }
 
 /// Remove any trailing whitespace from a string,
